@@ -240,7 +240,9 @@ def gen_dataset_case(rng, confirm, i):
         root_mode = "given-slash"
     return {"shape": shape, "files": files, "root_mode": root_mode, "cat_mode": cat_mode, "verify": verify,
             "bad_schema": rng.randrange(1, k) if bad_schema else None, "dup": dup, "relative": relative,
-            "junk": rng.random() < 0.3, "dir_slash": rng.random() < 0.3}
+            "junk": rng.random() < 0.3, "dir_slash": rng.random() < 0.3,
+            # one file with the same columns in another order (columns are matched by name; with verify such a list is refused)
+            "colperm": rng.randrange(k) if (not verify and shape != "subdatasets" and rng.random() < 0.2) else None}
 
 
 def _frame(spec, bad=False):
@@ -289,6 +291,8 @@ def check_dataset(case, root, pq, ctx=None, verbose=False):
     for j, spec in enumerate(case["files"]):
         d = os.path.join(root, *spec["dir"])
         df = _frame(spec, bad=(case["bad_schema"] == j))
+        if case.get("colperm") == j:
+            df = df[list(df.columns)[::-1]]
         if shape == "subdatasets":
             df["k"] = pd.Series([["a", "b"][x % 2] for x in range(len(df))], dtype="str")
             if len(df) == 0:
@@ -624,7 +628,7 @@ def check_verify(case, root, pq, ctx=None, verbose=False):
 
 
 def _replayable(case):
-    return {k: case.get(k) for k in ("shape", "files", "root_mode", "cat_mode", "verify", "bad_schema", "dup", "relative", "junk", "dir_slash")}
+    return {k: case.get(k) for k in ("shape", "files", "root_mode", "cat_mode", "verify", "bad_schema", "dup", "relative", "junk", "dir_slash", "colperm")}
 
 
 def replay(rep):
